@@ -86,10 +86,11 @@ class WriteTracer:
     """Records every attribute write on model objects while active.
     events: list of (phase, class name, attribute)"""
 
-    def __init__(self):
+    def __init__(self, keep_ids=False):
         self.events = []
         self.phase = 'idle'
         self._saved = []
+        self.keep_ids = keep_ids
 
     def __enter__(self):
         tracer = self
@@ -99,7 +100,10 @@ class WriteTracer:
 
             def make(orig, cls):
                 def __setattr__(self, name, value):
-                    tracer.events.append((tracer.phase, cls.__name__, name))
+                    if tracer.keep_ids:
+                        tracer.events.append((tracer.phase, cls.__name__, name, id(self)))
+                    else:
+                        tracer.events.append((tracer.phase, cls.__name__, name))
                     orig(self, name, value)
                 return __setattr__
             self._saved.append((cls, had_own, cls.__dict__.get('__setattr__')))
